@@ -668,6 +668,12 @@ func init() {
 		"(encoding/binary.littleEndian).PutUint16": lePut(2),
 		"(encoding/binary.littleEndian).PutUint32": lePut(4),
 		"(encoding/binary.littleEndian).PutUint64": lePut(8),
+		"(encoding/binary.bigEndian).Uint16":       beGet(2),
+		"(encoding/binary.bigEndian).Uint32":       beGet(4),
+		"(encoding/binary.bigEndian).Uint64":       beGet(8),
+		"(encoding/binary.bigEndian).PutUint16":    bePut(2),
+		"(encoding/binary.bigEndian).PutUint32":    bePut(4),
+		"(encoding/binary.bigEndian).PutUint64":    bePut(8),
 		"math.Float32bits":     func(s *State, fn *ssa.Function, args []Value, where string) []Value { return []Value{args[0]} },
 		"math.Float32frombits": func(s *State, fn *ssa.Function, args []Value, where string) []Value { return []Value{args[0]} },
 		"math.Float64bits":     func(s *State, fn *ssa.Function, args []Value, where string) []Value { return []Value{args[0]} },
@@ -1312,6 +1318,40 @@ func lePut(w int) intrinsicFn {
 		arr := av.Arr
 		for i := 0; i < w; i++ {
 			arr = &ArrStore{Base: arr, Idx: Add(b.Off, Const(64, uint64(i))), Val: Extract(8*i+7, 8*i, v)}
+		}
+		s.heap[o.ID] = &ArrayV{Arr: arr, N: av.N, Elem: av.Elem}
+		return nil
+	}
+}
+
+func beGet(w int) intrinsicFn {
+	return func(s *State, fn *ssa.Function, args []Value, where string) []Value {
+		b := args[1].(*SliceV)
+		s.check(fmt.Sprintf("pre:binary.BigEndian:len>=%d@%s", w, where), CmpBV("bvsle", Const(64, uint64(w)), b.Len))
+		arr := s.sliceArr(b)
+		var r *Term = Const(w*8, 0)
+		for i := 0; i < w; i++ {
+			byteT := arr.Select(Add(b.Off, Const(64, uint64(i))))
+			r = BinBV("bvor", r, BinBV("bvshl", ZExt(w*8, byteT), Const(w*8, uint64(8*(w-1-i)))))
+		}
+		return []Value{r}
+	}
+}
+
+func bePut(w int) intrinsicFn {
+	return func(s *State, fn *ssa.Function, args []Value, where string) []Value {
+		b := args[1].(*SliceV)
+		v := asTerm(args[2])
+		s.check(fmt.Sprintf("pre:binary.BigEndian:len>=%d@%s", w, where), CmpBV("bvsle", Const(64, uint64(w)), b.Len))
+		o := b.object()
+		if o == nil {
+			panic(pathEnd{"nil slice"})
+		}
+		av := s.arrayOf(o)
+		arr := av.Arr
+		for i := 0; i < w; i++ {
+			k := w - 1 - i
+			arr = &ArrStore{Base: arr, Idx: Add(b.Off, Const(64, uint64(i))), Val: Extract(8*k+7, 8*k, v)}
 		}
 		s.heap[o.ID] = &ArrayV{Arr: arr, N: av.N, Elem: av.Elem}
 		return nil
